@@ -437,7 +437,7 @@ def loadParts (lenv : LoadEnv) (b : Block) (n : Nat) : Option Parts := do
   let els ← b.col? typeTag
   let charges ← (if b.has chargeTag then do
       let cs ← b.col? chargeTag
-      allSome (cs.map parseFloat)
+      allSome (cs.map tofloat)            -- `[tofloat(c) for c in block['_atom_site_charge']]`: s.u. stripped too
     else some (List.replicate n 0))
   let ltags ← b.loopTags? typeTag
   let xtags := ltags.filter (fun t => !handledAtomTags.contains t)
